@@ -23,7 +23,7 @@ type JudgedEffect struct {
 }
 
 func (p *Prog) staticOnly(f *ssa.Function, entries map[*ssa.Function]bool) bool {
-	if entries[f] || f.Parent() != nil {
+	if (entries != nil && entries[f]) || f.Parent() != nil {
 		return false
 	}
 	n := p.CG.Nodes[f]
